@@ -209,11 +209,11 @@ Qed.
 
 (* ---- one step: the model's answer satisfies the property predicate and the
         ground truth it induces is the model's storage ------------------------ *)
-Lemma create_sound g st cid scopes now life rnd :
+Lemma create_sound g st cid scopes now life rnd host fwd :
   prefix_free (g_charset g) = true -> 16 <= List.length rnd ->
-  forall st' x, create g st cid scopes now life rnd = (st', x) ->
+  forall st' x, create g st cid scopes now life rnd host fwd = (st', x) ->
   (exists e, x = RErr e /\ st' = st) \/
-  (exists dc uc, x = RDevice dc uc (verification_uri g) (verification_uri g ++ "?user_code=" ++ uc)%string life (g_interval g)
+  (exists dc uc, x = RDevice dc uc (verification_uri g host fwd) (verification_uri g host fwd ++ "?user_code=" ++ uc)%string life (g_interval g)
      /\ st' = mkDev dc uc cid scopes (now + ns_of_s life)%Z false false "" :: st
      /\ has_user st uc = false
      /\ device_code_ok dc = true /\ user_code_ok (g_charset g) (g_amount g) (g_dash g) uc = true
@@ -237,21 +237,23 @@ Qed.
 Lemma is_prefix_app a b : is_prefix a (a ++ b)%string = true.
 Proof. unfold is_prefix. now rewrite strip_prefix_app. Qed.
 
-Lemma authz_sound g cl st r cr scopes now life rnd :
+Lemma authz_sound g cl st r cr scopes now life rnd host fwd :
   prefix_free (g_charset g) = true -> 16 <= List.length rnd ->
-  let o := OpAuthz r cr scopes now life rnd in
-  let sx := authz g cl st r cr scopes now life rnd in
+  let o := OpAuthz r cr scopes now life rnd host fwd in
+  let sx := authz g cl st r cr scopes now life rnd host fwd in
   step_ok g cl st o (snd sx) = true /\ gt_next st o (snd sx) = fst sx.
 Proof.
   intros Hpf Hlen o sx.
   assert (Hc : forall cid, cid = claimed cr ->
-     step_ok g cl st o (snd (create g st cid scopes now life rnd)) = true /\
-     gt_next st o (snd (create g st cid scopes now life rnd)) = fst (create g st cid scopes now life rnd)).
-  { intros cid ->. destruct (create g st (claimed cr) scopes now life rnd) as [st' x] eqn:Hcr.
-    destruct (create_sound g st _ _ _ _ _ Hpf Hlen _ _ Hcr) as [[e [-> ->]]|[dc [uc [-> [-> [_ [Hdc [Huc _]]]]]]]].
+     step_ok g cl st o (snd (create g st cid scopes now life rnd host fwd)) = true /\
+     gt_next st o (snd (create g st cid scopes now life rnd host fwd)) = fst (create g st cid scopes now life rnd host fwd)).
+  { intros cid ->. destruct (create g st (claimed cr) scopes now life rnd host fwd) as [st' x] eqn:Hcr.
+    destruct (create_sound g st _ _ _ _ _ _ _ Hpf Hlen _ _ Hcr) as [[e [-> ->]]|[dc [uc [-> [-> [_ [Hdc [Huc _]]]]]]]].
     - split; reflexivity.
     - cbn [snd fst]. split; [|reflexivity]. cbn [step_ok o]. unfold device_fields_ok.
-      rewrite Hdc, Huc. unfold verification_uri. rewrite String.eqb_refl, !Z.eqb_refl.
+      rewrite Hdc, Huc.
+      assert (Hv : expected_verification_uri g host fwd = verification_uri g host fwd) by reflexivity.
+      rewrite Hv, String.eqb_refl, !Z.eqb_refl.
       destruct (all_chars unreserved uc).
       + now rewrite String.eqb_refl.
       + rewrite <- string_app_assoc. now rewrite is_prefix_app. }
@@ -301,7 +303,7 @@ Lemma step_sound g cl st o :
   step_ok g cl st o (snd (step g cl st o)) = true /\
   gt_next st o (snd (step g cl st o)) = fst (step g cl st o).
 Proof.
-  intros Hcl Hpf Hop. destruct o as [r cr scopes now life rnd | uc sub | uc | r cr dc now f]; cbn [step].
+  intros Hcl Hpf Hop. destruct o as [r cr scopes now life rnd host fwd | uc sub | uc | r cr dc now f]; cbn [step].
   - apply authz_sound; [exact Hpf|]. cbn in Hop. now apply Nat.leb_le.
   - split; reflexivity.
   - split; reflexivity.
@@ -354,8 +356,8 @@ Section Traces.
 
   (* events of the past *)
   Definition issued_ev (tr : list (op * resp)) (dc uc cid : string) (scopes : list string) (exp : Z) : Prop :=
-    exists r cr now life rnd vu vuc e i,
-      In (OpAuthz r cr scopes now life rnd, RDevice dc uc vu vuc e i) tr /\
+    exists r cr now life rnd host fwd vu vuc e i,
+      In (OpAuthz r cr scopes now life rnd host fwd, RDevice dc uc vu vuc e i) tr /\
       claimed cr = cid /\ exp = (now + ns_of_s life)%Z.
   Definition approved_ev (tr : list (op * resp)) (uc sub : string) : Prop :=
     In (OpApprove uc sub, RAck true) tr.
@@ -374,8 +376,8 @@ Section Traces.
 
   Lemma issued_mono tr e dc uc cid sc ex : issued_ev tr dc uc cid sc ex -> issued_ev (e :: tr) dc uc cid sc ex.
   Proof.
-    intros [r [cr [now [life [rnd [vu [vuc [e0 [i [H1 H2]]]]]]]]]].
-    exists r, cr, now, life, rnd, vu, vuc, e0, i. split; [now right | exact H2].
+    intros [r [cr [now [life [rnd [host [fwd [vu [vuc [e0 [i [H1 H2]]]]]]]]]]]].
+    exists r, cr, now, life, rnd, host, fwd, vu, vuc, e0, i. split; [now right | exact H2].
   Qed.
 
   Lemma has_user_in st uc : has_user st uc = true <-> exists d, In d st /\ d_user d = uc.
@@ -410,14 +412,14 @@ Section Traces.
     - intros uc sub [E|Hin]; [exfalso; eapply Ha; eauto | eapply I5; eauto].
   Qed.
 
-  Lemma inv_create tr st r cr scopes now life rnd dc uc vu vuc e i :
+  Lemma inv_create tr st r cr scopes now life rnd host fwd dc uc vu vuc e i :
     inv tr st -> has_user st uc = false ->
-    inv ((OpAuthz r cr scopes now life rnd, RDevice dc uc vu vuc e i) :: tr)
+    inv ((OpAuthz r cr scopes now life rnd host fwd, RDevice dc uc vu vuc e i) :: tr)
         (mkDev dc uc (claimed cr) scopes (now + ns_of_s life)%Z false false "" :: st).
   Proof.
     intros [I1 I2 I3 I4 I5] Hnew. constructor.
     - intros d [<-|Hin]; [|apply issued_mono; now apply I1]. cbn.
-      exists r, cr, now, life, rnd, vu, vuc, e, i. split; [now left | split; reflexivity].
+      exists r, cr, now, life, rnd, host, fwd, vu, vuc, e, i. split; [now left | split; reflexivity].
     - intros d [<-|Hin]; [discriminate|]. intro. right. now apply I2.
     - intros d [<-|Hin]; [discriminate|]. intro. right. now apply I3.
     - intros u [E|Hin]; [discriminate|]. destruct (I4 u Hin) as [Hh Hall]. split.
@@ -482,10 +484,10 @@ Section Traces.
         destruct (String.eqb (d_user d) uc); cbn in *; now apply Hall.
   Qed.
 
-  Lemma create_inv tr st r cr scopes now life rnd :
+  Lemma create_inv tr st r cr scopes now life rnd host fwd :
     inv tr st ->
-    let sx := create g st (claimed cr) scopes now life rnd in
-    inv ((OpAuthz r cr scopes now life rnd, snd sx) :: tr) (fst sx).
+    let sx := create g st (claimed cr) scopes now life rnd host fwd in
+    inv ((OpAuthz r cr scopes now life rnd host fwd, snd sx) :: tr) (fst sx).
   Proof.
     intros HI sx. subst sx. unfold create.
     destruct (new_device_code rnd) as [[dc rest]|]; cbn [fst snd].
@@ -501,7 +503,7 @@ Section Traces.
   Proof.
     induction 1 as [|tr st o Hr IH].
     - constructor; try (intros ? []); intros; contradiction.
-    - destruct o as [r cr scopes now life rnd | uc sub | uc | r cr dc now f]; cbn [step].
+    - destruct o as [r cr scopes now life rnd host fwd | uc sub | uc | r cr dc now f]; cbn [step].
       + unfold authz. destruct r.
         * destruct (prov_client cl cr) as [[id a]|e] eqn:Hp; cbn [fst snd];
             [|apply inv_quiet; [exact IH | discriminate | discriminate]].
@@ -596,21 +598,21 @@ Proof.
       destruct (now >? d_expires d)%Z; reflexivity.
 Qed.
 
-Lemma response_fields g cl st r cr scopes now life rnd st' dc uc vu vuc e i :
-  authz g cl st r cr scopes now life rnd = (st', RDevice dc uc vu vuc e i) ->
+Lemma response_fields g cl st r cr scopes now life rnd host fwd st' dc uc vu vuc e i :
+  authz g cl st r cr scopes now life rnd host fwd = (st', RDevice dc uc vu vuc e i) ->
   device_code_ok dc = true /\
   (exists rs, List.length rs = g_amount g /\ Forall (fun x => In x (g_charset g)) rs /\
               uc = toks_str (layout (g_dash g) 0 rs)) /\
-  vu = (g_origin g ++ g_path g)%string /\ vuc = (vu ++ "?user_code=" ++ uc)%string /\
+  vu = verification_uri g host fwd /\ vuc = (vu ++ "?user_code=" ++ uc)%string /\
   e = life /\ i = g_interval g /\
   st' = mkDev dc uc (claimed cr) scopes (now + ns_of_s life)%Z false false "" :: st.
 Proof.
   assert (Hc : forall cid, cid = claimed cr ->
-    create g st cid scopes now life rnd = (st', RDevice dc uc vu vuc e i) ->
+    create g st cid scopes now life rnd host fwd = (st', RDevice dc uc vu vuc e i) ->
     device_code_ok dc = true /\
     (exists rs, List.length rs = g_amount g /\ Forall (fun x => In x (g_charset g)) rs /\
                 uc = toks_str (layout (g_dash g) 0 rs)) /\
-    vu = (g_origin g ++ g_path g)%string /\ vuc = (vu ++ "?user_code=" ++ uc)%string /\
+    vu = verification_uri g host fwd /\ vuc = (vu ++ "?user_code=" ++ uc)%string /\
     e = life /\ i = g_interval g /\
     st' = mkDev dc uc (claimed cr) scopes (now + ns_of_s life)%Z false false "" :: st).
   { intros cid ->. unfold create.
@@ -632,6 +634,28 @@ Proof.
     destruct (c_dev c); [|discriminate]. apply Hc. now destruct (legacy_client_claimed _ _ _ Hl).
 Qed.
 
+Lemma response_fields_full g cl st r cr scopes now life rnd host fwd st' dc uc vu vuc e i :
+  authz g cl st r cr scopes now life rnd host fwd = (st', RDevice dc uc vu vuc e i) ->
+  device_code_ok dc = true /\
+  (exists rs, List.length rs = g_amount g /\ Forall (fun x => In x (g_charset g)) rs /\
+              uc = toks_str (layout (g_dash g) 0 rs)) /\
+  vu = match g_form g with
+       | FormPath p => (request_origin g host fwd ++ p)%string
+       | FormURL u => u
+       end /\
+  is_prefix (request_origin g host fwd) (request_issuer g host fwd) = true /\
+  vuc = (vu ++ "?user_code=" ++ uc)%string /\
+  e = life /\ i = g_interval g /\
+  st' = mkDev dc uc (claimed cr) scopes (now + ns_of_s life)%Z false false "" :: st.
+Proof.
+  intro H. destruct (response_fields _ _ _ _ _ _ _ _ _ _ _ _ _ _ _ _ _ _ H)
+    as [H1 [H2 [H3 [H4 [H5 [H6 H7]]]]]].
+  split; [exact H1|]. split; [exact H2|]. split.
+  { rewrite H3. unfold verification_uri. destruct (g_form g); reflexivity. }
+  split; [unfold request_issuer; apply is_prefix_app|].
+  split; [exact H4|]. split; [exact H5|]. split; [exact H6 | exact H7].
+Qed.
+
 (* every history run by [run] is a reachable trace *)
 Lemma histories_reach g cl ops :
   reach g cl (rev (combine ops (run g cl [] ops))) (final g cl [] ops).
@@ -640,7 +664,7 @@ Proof.
 Qed.
 
 (* ---- non-vacuity: a history in which every promised answer occurs ---------- *)
-Definition ex_cfg := mkCfg "https://op.example.com" "/device" ["B"; "C"; "D"; "F"] 4 2 5%Z.
+Definition ex_cfg := mkCfg (IStatic "https://op.example.com" "/oidc") (FormPath "/device") ["B"; "C"; "D"; "F"] 4 2 5%Z.
 Definition ex_clients :=
   [mkClient "web" "s3cr3t" ABasic true true; mkClient "native" "" ANone true false].
 Definition ex_web := mkCreds (Some ("web", "s3cr3t")) "" "".
@@ -648,7 +672,7 @@ Definition ex_native := mkCreds None "native" "".
 Definition ex_rnd : list nat := [1;2;3;4;5;6;7;8;9;10;11;12;13;14;15;16; 0;1;2;3].
 Definition ex_dc := "AQIDBAUGBwgJCgsMDQ4PEA".
 Definition ex_ops :=
-  [ OpAuthz RProvider ex_web ["openid"; "profile"] 1000%Z 300%Z ex_rnd;
+  [ OpAuthz RProvider ex_web ["openid"; "profile"] 1000%Z 300%Z ex_rnd "other.example" None;
     OpPoll RLegacy ex_web ex_dc 2000%Z FNone;
     OpPoll RProvider ex_native ex_dc 2000%Z FNone;
     OpPoll RProvider ex_web ex_dc 2000%Z FDeadline;
@@ -674,9 +698,24 @@ Proof. split; reflexivity. Qed.
 
 Example expired_nonvacuous :
   run ex_cfg ex_clients []
-    [ OpAuthz RLegacy ex_native ["openid"] 1000%Z (-300)%Z ex_rnd;
+    [ OpAuthz RLegacy ex_native ["openid"] 1000%Z (-300)%Z ex_rnd "op.example.com" None;
       OpPoll RProvider ex_native ex_dc 2000%Z FNone ]
   = [ RDevice ex_dc "BC-DF" "https://op.example.com/device"
         "https://op.example.com/device?user_code=BC-DF" (-300)%Z 5%Z;
       RErr "expired_token" ].
 Proof. vm_compute. reflexivity. Qed.
+
+(* a provider with a request-derived issuer: two device authorizations under
+   different hosts, each answered on the issuer of its own request; the issuer's
+   path is replaced by the form path *)
+Definition ex_rnd2 : list nat := [16;15;14;13;12;11;10;9;8;7;6;5;4;3;2;1; 3;2;1;0].
+Example dynamic_issuer_nonvacuous :
+  let g := mkCfg (IForwarded false "/oidc") (FormPath "/device") ["B"; "C"; "D"; "F"] 4 2 5%Z in
+  request_issuer g "a.example" None = "https://a.example/oidc" /\
+  run g ex_clients []
+    [ OpAuthz RLegacy ex_native [] 1000%Z 300%Z ex_rnd "a.example" None;
+      OpAuthz RProvider ex_native [] 2000%Z 300%Z ex_rnd2 "a.example" (Some "b.example:8443") ]
+  = [ RDevice ex_dc "BC-DF" "https://a.example/device" "https://a.example/device?user_code=BC-DF" 300%Z 5%Z;
+      RDevice "EA8ODQwLCgkIBwYFBAMCAQ" "FD-CB" "https://b.example:8443/device"
+        "https://b.example:8443/device?user_code=FD-CB" 300%Z 5%Z ].
+Proof. split; vm_compute; reflexivity. Qed.
